@@ -103,6 +103,7 @@ class RunEnv:
         self.tag = ''       # appended to volatile tokens (per-thread mark)
         self.defined = set()  # attribute sites defined so far (side effects)
         self.stable = {}      # objects handed out again on every invocation
+        self.shared_map = None  # the REQUEST-like mapping on the namespace
 
     # -- registry -------------------------------------------------------
     def site(self, name):
@@ -153,6 +154,15 @@ class RunEnv:
             return r
         if 'defines' in r:               # side effect: attributes appear
             self.defined.update(r['defines'])
+        if 'grow' in r and self.shared_map is not None:
+            # side effect a la REQUEST.set(): a mapping that is on the
+            # namespace stack gains (or loses) a key while rendering goes on
+            m = self.shared_map
+            extra = sorted(k_ for k_ in m if str(k_).startswith('set'))
+            if r['grow'] > 0:
+                m['set%d' % len(extra)] = 1
+            elif extra:
+                del m[extra[-1]]
         if 'when_defined' in r:
             return r['when_defined'] if name in self.defined else UNDEF
         if 'raise' in r:
@@ -187,7 +197,7 @@ class RunEnv:
                        r.get('fallback', False))
         if 'map' in r:
             return Map(self, name, r['map'], r.get('fallback', False),
-                       r.get('computed', ()), r.get('miss'))
+                       r.get('computed', ()), r.get('miss'), r.get('vlen'))
         if 'pair' in r:
             return (r['pair'][0], self.materialise(r['pair'][1], name, k))
         if 'strobj' in r:
@@ -199,6 +209,10 @@ class RunEnv:
                           r.get('len', 0))
         if 'callobj' in r:
             return CallObj(self, r['callobj'])
+        if 'iterobj' in r:
+            return IterObj(self, r['iterobj'])
+        if 'undef' in r:
+            return UNDEF
         if 'key' in r:
             return Key(self, r['key'], r['rank'])
         if 'exc' in r:
@@ -253,16 +267,21 @@ class Obj:
 
 class Map:
     def __init__(self, env, name, data, fallback=False, computed=(),
-                 miss=None):
+                 miss=None, vlen=None):
         self._env, self._name, self._fb = env, name, fallback
         self._miss = miss               # how a missing key is reported
+        self._vlen = list(vlen or ())   # sizes it reports, call after call
+        self._nlen = 0
         self._computed = computed       # keys whose value is computed on
         self._d = {k: env.materialise(v, '%s.%s' % (name, k), 0)  # access
                    for k, v in data.items()}
 
     def __getitem__(self, k):
         if k in self._computed:
-            return self._env.invoke('%s.%s' % (self._name, k))
+            v = self._env.invoke('%s.%s' % (self._name, k))
+            if v is UNDEF:          # not there (this time)
+                raise KeyError(k)
+            return v
         if k in self._d:
             return self._d[k]
         if self._fb and (k in self._env.sites or k in self._env.extra_names):
@@ -287,6 +306,12 @@ class Map:
         return self._d.keys()
 
     def __len__(self):
+        if self._vlen:
+            # a session-like mapping that the body fills or empties: its
+            # size (and so its truth) is not the same from one look to the
+            # next
+            self._nlen += 1
+            return self._vlen[(self._nlen - 1) % len(self._vlen)]
         return len(self._d)
 
     def __repr__(self):
@@ -342,6 +367,27 @@ class CallObj:
 
     def __str__(self):
         return 'callobj'
+
+
+class IterObj:
+    """a one-shot iterator as a value (a cursor, a generator): true, like
+    any object without __bool__ / __len__"""
+
+    def __init__(self, env, name):
+        self._env, self._name = env, name
+        self._left = 2
+
+    def __iter__(self):
+        return self
+
+    def __next__(self):
+        if self._left <= 0:
+            raise StopIteration
+        self._left -= 1
+        return 'it%d' % self._left
+
+    def __str__(self):
+        return 'iterobj'
 
 
 class SeqObj(BoolObj):
@@ -429,6 +475,11 @@ def node_src(n):
         if how == 'clients2':   # a path of two client objects
             return ('<dtml-var expr="%s((_.namespace(cl=5)[0], '
                     '_.namespace(cm=6)[0]), _)">' % n['name'])
+        if how == 'clientstr':  # a string as the client object
+            return '<dtml-var expr="%s(\'text\', _)">' % n['name']
+        if how == 'clientsmix':  # a path holding an object and a string
+            return ('<dtml-var expr="%s((_.namespace(cl=5)[0], \'text\'), '
+                    '_)">' % n['name'])
         if how == 'clients0':   # an empty client path
             return '<dtml-var expr="%s((), _)">' % n['name']
         if how == 'call':
